@@ -245,6 +245,6 @@ Section ThreeD.
     rewrite (wf_len n c T X Hwf), (wf_shape_cols n c T X Hwf), (wf_shape_time n c T X Hwf).
     unfold py_range. rewrite unstack_columns_level. f_equal.
     destruct cn as [l|]; cbn [names_or_default mi_set_columns m_rows]; [reflexivity|].
-    rewrite bridge_make_column_names. reflexivity.
+    rewrite ?bridge_make_column_names. reflexivity.
   Qed.
 End ThreeD.
